@@ -736,6 +736,13 @@ func (x *Exec) external(st *State, fn *ssa.Function, args []Value, site string) 
 		n := bin("bvadd", old.Len, k)
 		return ret(SliceV{Obj: o, Off: Const(64, 0), Len: n, Cap: n})
 	}
+	if strings.Contains(site, ".init:") && fn.Signature.Results().Len() == 1 {
+		// an unmodelled library call inside a package initialiser: the package-level variable it initialises is
+		// given an arbitrary value of its type (over-approximation), so that a new package-level variable in the
+		// repository does not stop every check before it starts
+		x.Trusted["package initialiser: result of "+name+" taken as arbitrary"]++
+		return ret(x.sym(st, fn.Signature.Results().At(0).Type(), "init_"+fn.Name()))
+	}
 	fail("external call not modelled: %s (at %s)", name, site)
 	return nil
 }
